@@ -10,6 +10,11 @@ import OFV.Proofs.C09
 import OFV.Proofs.C09WF
 import OFV.Proofs.C09Parity
 import OFV.Proofs.C09Parse
+import OFV.Proofs.C09Inter
+import OFV.Proofs.C09Bk3
+import OFV.Proofs.C09IntMul
+import OFV.Proofs.C09Addr
+import OFV.Proofs.C09Ext4
 
 namespace OFV.C09
 open OFV.Model.C09 OFV.Spec.C09
@@ -184,6 +189,19 @@ theorem append_valid (a b c : Code) (va vb : List Nat) (h : a.iadd b = .ok c) (h
     (hlen : va.length = a.nm) (hva : ValidOn a va) (hvb : ValidOn b vb) : ValidOn c (va ++ vb) :=
   append_valid' a b c va vb h ha hlen hva hvb
 
+/-- `a + b` and `a * f` of well-shaped codes are well shaped (so the validity theorems compose
+over code expressions). -/
+theorem append_concat_shaped (a b c : Code) (ha : Shaped a) (hb : Shaped b) :
+    (a.iadd b = .ok c → Shaped c) ∧ (a.imulCode b = .ok c → Shaped c) :=
+  ⟨fun h => append_shaped' a b c h ha hb, fun h => concat_shaped' a b c h ha hb⟩
+
+/-- `k * code` (`k ≥ 1`, numpy or Python integer) is well shaped and valid on every concatenation
+of `k` vectors on which the code is valid: the `k`-fold product domain. -/
+theorem int_mul_valid (a : Code) (ha : Shaped a) (m : Nat) (c : Code)
+    (h : a.imulInt ((m + 1 : Nat) : Int) = .ok c) (vs : List (List Nat)) (hvs : vs.length = m + 1)
+    (hv : ∀ v ∈ vs, v.length = a.nm ∧ ValidOn a v) : ValidOn c vs.flatten ∧ Shaped c :=
+  int_mul_valid' a ha m c h vs hvs hv
+
 /-- A code object built by `BinaryCode.__init__` from a well-shaped matrix satisfies `Shaped`. -/
 theorem init_shaped (enc : Mat) (nq nm : Nat) (dec : List Poly) (c : Code)
     (h : Code.mk' enc nq nm dec = .ok c) (hr : enc.length = nq) (hc : ∀ row ∈ enc, row.length = nm) :
@@ -228,6 +246,71 @@ theorem checksum_code_valid (n : Nat) (odd : Bool) (c : Code) (h : checksumCode 
     (v : List Nat) (hlen : v.length = n) (hb : ∀ x ∈ v, x ≤ 1) (hpar : (v.sum % 2 == 1) = odd) :
     ValidOn c v := checksum_valid' n odd c h v hlen hb hpar
 
+/-- The doubling loops of `_encoder_bk` / `_decoder_bk`: after `r` iterations the matrices are
+`2^(r+1)` square, the last encoder row is all ones, the decoder is lower triangular with 0/1
+entries and last column `e_last`, and the decoder inverts the encoder mod 2
+(`D (E v) ≡ v` for every integer vector `v`). -/
+theorem bk_matrices_inverse (r : Nat) : BkInv (2 ^ (r + 1)) (encIter r) (decIter r) := bkInv_iter r
+
+/-- `bravyi_kitaev_code(n)` decodes what it encodes, for every `n` (also when `n` is not a power
+of two: the principal `n x n` blocks of the binary-tree matrices) and every 0/1 vector. -/
+theorem bk_code_valid (n : Nat) (c : Code) (hc : bravyiKitaevCode n = .ok c) (v : List Nat)
+    (hlen : v.length = n) (hb : ∀ x ∈ v, x ≤ 1) : ValidOn c v := bk_valid' n c hc v hlen hb
+
+/-- `interleaved_code(2h)`: the loop builds the permutation matrix sending mode `2i` to qubit `i`
+and mode `2i + 1` to qubit `h + i` (rows `sigma`), the decoder is its transpose, and the code
+decodes what it encodes for every `h` and every 0/1 vector. -/
+theorem interleaved_code_valid (h : Nat) (c : Code) (hc : interleavedCode (2 * h) = .ok c) (v : List Nat)
+    (hb : ∀ x ∈ v, x ≤ 1) : ValidOn c v := interleaved_valid' h c hc v hb
+
+/-- the documented order: row `r` of the encoder of `interleaved_code(2h)` is the unit vector of
+column `2r` (`r < h`) resp. `2(r - h) + 1`: even modes first, then odd modes. -/
+theorem interleaved_code_order (h r : Nat) (hr : r < 2 * h) :
+    (interleavedMat (2 * h)).getD r [] = (List.range (2 * h)).map fun c => if sigma h r = c then 1 else 0 :=
+  interleaved_row h r hr
+
+/-- `weight_one_binary_addressing_code(e)` decodes what it encodes on all `2^e` occupation
+vectors of Hamming weight one (`unitVec (2^e) a`), for every exponent `e`: the decoder component
+`j` is the product of the factors `w_i + 1 + bit_i(j)`, i.e. the indicator of the address `j`. -/
+theorem weight_one_binary_addressing_valid (e : Nat) (c : Code)
+    (hc : weightOneBinaryAddressingCode e = .ok c) (a : Nat) (ha : a < 2 ^ e) :
+    ValidOn c (unitVec (2 ^ e) a) := w1ba_valid' e c hc a ha
+
+/-! ## extractor / dissolve (binary_code_transform.py), tolerance-free Model
+
+`diag w o` is the value `Σ c_t χ_t(w)` of an operator made of Z / identity strings on the basis
+state with bits `w`; `melQ o t s` is the Spec matrix element `⟨t| o |s⟩`.  The Model functions
+take the tolerance of `QubitOperator.__isub__` as a parameter; the theorems are for tolerance 0
+(no coefficient is ever dropped).  With the library tolerance 1e-8 a monomial of more than 27
+variables would lose its `2^(1-k)` coefficients: that regime is outside these theorems. -/
+
+/-- `Q *= R` of the Symbolic Model is multiplicative on the values of Z / identity operators
+(uses the Pauli table extracted from the source: `Z·Z = I`, `I·Z = Z`). -/
+theorem z_operator_product (w : Nat → Bool) (a b : Model.Op) (ha : ZIop a) (hb : ZIop b) :
+    diag w (Model.mulOp .qubit a b) = diag w a * diag w b ∧ ZIop (Model.mulOp .qubit a b) :=
+  diag_mulOp w a b ha hb
+
+/-- `dissolve(term)` is the operator with value `(-1)^{product of the variables of the term}`
+(`1 - 2 Π (1 - Z_i)/2`). -/
+theorem dissolve_sound (w : Nat → Bool) (term : Mono) (o : Model.Op) (h : dissolve 0 term = .ok o) :
+    diag w o = sgnB (evalMono w term) ∧ ZIop o := dissolve_diag w term o h
+
+/-- `extractor(p)`: the product over the monomials has the value `(-1)^{p(w)}` on the basis
+state with bits `w` (for polynomials without an empty monomial, e.g. canonical ones). -/
+theorem extractor_sound (w : Nat → Bool) (p : Poly) (hp : ∀ t ∈ p, t ≠ []) (q : QV)
+    (h : extractor 0 p = .ok q) : diagQV w q = sgnB (evalPoly w p) ∧ ZIqv q :=
+  extractor_diag w p hp q h
+
+/-- … and in the Spec: when `extractor(p)` is an operator `o`, `⟨t| o |s⟩ = (-1)^{p(s)} δ_ts`. -/
+theorem extractor_sound_spec (p : Poly) (hp : ∀ t ∈ p, t ≠ []) (o : Model.Op)
+    (h : extractor 0 p = .ok (.op o)) (t s : Nat) :
+    Spec.melQ o t s = if t = s then sgnB (evalPoly (fun i => s.testBit i) p) else 0 := by
+  obtain ⟨h1, h2⟩ := extractor_diag (fun i => s.testBit i) p hp (.op o) h
+  rw [melQ_ZI o h2 t s]
+  split
+  · exact h1
+  · rfl
+
 /-! ## the literal segment codes (tables re-extracted from the source on every run) -/
 
 instance (c : Code) (v : List Nat) : Decidable (ValidOn c v) := by unfold ValidOn; infer_instance
@@ -254,23 +337,12 @@ theorem weight_two_segment_code_valid_partial :
        [1,1,0,0,0], [1,0,1,0,0], [1,0,0,1,0], [1,0,0,0,1], [0,1,1,0,0], [0,1,0,1,0], [0,1,0,0,1],
        [0,0,1,1,0], [0,0,1,0,1]] = true := by decide
 
-/-- test (finite computation, not the unbounded claim): `bravyi_kitaev_code(n)` is valid on all
-vectors for `n ≤ 4`; the statement for all `n` is open. -/
-theorem test_bk_code_valid_small :
-    (validAll (bravyiKitaevCode 1) [[0], [1]] &&
-     validAll (bravyiKitaevCode 2) [[0,0], [1,0], [0,1], [1,1]] &&
-     validAll (bravyiKitaevCode 3) [[0,0,0], [1,0,0], [0,1,0], [1,1,0], [0,0,1], [1,0,1], [0,1,1], [1,1,1]] &&
-     validAll (bravyiKitaevCode 4) [[0,0,0,1], [1,0,1,0], [0,1,1,1], [1,1,0,0], [1,1,1,1]]) = true := by decide
-
-/-- test (finite computation): `weight_one_binary_addressing_code(2)` on its 4 weight-one vectors. -/
-theorem test_w1ba_valid_small :
-    validAll (weightOneBinaryAddressingCode 2) [[1,0,0,0], [0,1,0,0], [0,0,1,0], [0,0,0,1]] = true := by decide
-
-example : (jordanWignerCode 3).toBool = true := by decide
+example : (jordanWignerCode 3).toBool = true ∧ (bravyiKitaevCode 5).toBool = true := by decide
 example (c : Code) (h : jordanWignerCode 3 = .ok c) : ValidOn c [1, 0, 1] :=
   jw_code_valid 3 c h _ (by decide)
 example : (parityCode 4).toBool = true ∧ (parityCode 1).toBool = true := by decide
-example : (checksumCode 4 true).toBool = true := by decide
+example : (checksumCode 4 true).toBool = true ∧ (interleavedCode 6).toBool = true ∧
+    (weightOneBinaryAddressingCode 2).toBool = true := by decide
 
 example : evalPoly (fun i => i == 1) (imul [[some 0], [some 1]] [[some 1], [none]]) = false := by decide
 
